@@ -225,6 +225,17 @@ def run(ctx):
                     got = 'str'
                 ob.require(got == want or (isinstance(want, list) and isinstance(got, (list, tuple)) and list(got) == want),
                            'argument %s of %s: %s must be %r' % (key[1], key[0], k, want), where, expected=want, found=got)
+        # argparse copies a sub-parser's namespace (defaults included) over the parent's: a destination declared on
+        # both levels silently loses the value given in front of the sub-command
+        by_dest = {}
+        for own, names, kw, line in calls:
+            by_dest.setdefault(_dest(names), set()).add('<global>' if own == '<global>' else 'sub')
+        for d_, levels in sorted(by_dest.items()):
+            ob.require(len(levels) == 1, 'option destination %r is declared on the main parser and on a sub-command: a value given '
+                       'before the sub-command is overwritten by the sub-command default (accepted, status 0, wrong wallet)' % d_, fpa.where)
+        extra = sorted(set(found) - set(SPEC_ARGS))
+        if extra:
+            ob.note('arguments beyond the specified table (not judged): %s' % extra)
         ob.require(set(owner.values()) == set(CTORS), 'sub-commands are exactly the five wallet sources', fpa.where,
                    expected=sorted(CTORS), found=sorted(owner.values()))
         sub = [n for n in ast.walk(fpa.node) if isinstance(n, ast.Call) and isinstance(n.func, ast.Attribute)
